@@ -471,7 +471,7 @@ def run_item(ctx, item):
         for n in pitched:
             r_ = rng.random()
             if r_ < 0.08:
-                n.technical = [S.Fingering(rng.randint(1, 5))]
+                n.technical = [S.Fingering(rng.choice([0, 1, 2, 3, 4, 5]))]
             elif r_ < 0.16:
                 n.stem_direction = rng.choice(["up", "down"])
         if pitched and rng.random() < 0.3:
